@@ -47,6 +47,8 @@ type rewriter struct {
 	ownStructs  map[*types.Named]bool
 	noRace      bool
 	chanLenCap  map[*ast.CallExpr]bool // len(ch) / cap(ch) calls, recorded on the typed AST before any rewriting
+	chanRange   map[*ast.RangeStmt]bool
+	keepAlive   []string
 }
 
 func (r *rewriter) pos(n ast.Node) string { return r.fset.Position(n.Pos()).String() }
@@ -97,6 +99,7 @@ func chanOf(c *ast.CallExpr) ast.Expr { return c.Fun.(*ast.SelectorExpr).X }
 // precompute records type-dependent facts on the original AST (types are attached to original nodes only).
 func (r *rewriter) precompute() {
 	r.chanLenCap = map[*ast.CallExpr]bool{}
+	r.chanRange = map[*ast.RangeStmt]bool{}
 	ast.Inspect(r.file, func(n ast.Node) bool {
 		if call, ok := n.(*ast.CallExpr); ok && len(call.Args) == 1 {
 			if id, ok := call.Fun.(*ast.Ident); ok && (id.Name == "len" || id.Name == "cap") {
@@ -115,16 +118,20 @@ func (r *rewriter) rewriteFile() {
 		p, _ := strconv.Unquote(im.Path.Value)
 		switch p {
 		case "sync":
-			if im.Name != nil && im.Name.Name != "sync" {
-				die("renamed import of sync at %s", r.pos(im))
+			if im.Name == nil {
+				im.Name = ast.NewIdent("sync")
+			} else if im.Name.Name == "_" || im.Name.Name == "." {
+				die("blank or dot import of sync at %s", r.pos(im))
 			}
-			im.Name = ast.NewIdent("sync")
+			r.keepAlive = append(r.keepAlive, "var _ "+im.Name.Name+".Mutex")
 			im.Path.Value = strconv.Quote(vsPath)
 		case "sync/atomic":
-			if im.Name != nil && im.Name.Name != "atomic" {
-				die("renamed import of sync/atomic at %s", r.pos(im))
+			if im.Name == nil {
+				im.Name = ast.NewIdent("atomic")
+			} else if im.Name.Name == "_" || im.Name.Name == "." {
+				die("blank or dot import of sync/atomic at %s", r.pos(im))
 			}
-			im.Name = ast.NewIdent("atomic")
+			r.keepAlive = append(r.keepAlive, "var _ = "+im.Name.Name+".LoadUint32")
 			im.Path.Value = strconv.Quote(vsPath)
 		case "reflect":
 			// reflect.Select & co. would bypass the scheduler
@@ -146,7 +153,7 @@ func (r *rewriter) rewriteFile() {
 		switch n := c.Node().(type) {
 		case *ast.RangeStmt:
 			if r.isChan(n.X) {
-				die("range over channel at %s", r.pos(n))
+				r.chanRange[n] = true
 			}
 		}
 		return true
@@ -160,19 +167,17 @@ func (r *rewriter) rewriteFile() {
 		case *ast.SelectorExpr:
 			if r.isPkg(n.X, "context") {
 				switch n.Sel.Name {
-				case "WithCancel", "WithTimeout", "WithDeadline":
+				case "WithCancel", "WithTimeout", "WithDeadline", "AfterFunc", "WithoutCancel":
 					c.Replace(r.vs("Ctx" + n.Sel.Name))
-				case "WithCancelCause", "WithTimeoutCause", "WithDeadlineCause", "AfterFunc", "WithoutCancel":
+				case "WithCancelCause", "WithTimeoutCause", "WithDeadlineCause":
 					die("context.%s at %s", n.Sel.Name, r.pos(n))
 				}
 			}
 			if r.isPkg(n.X, "time") {
 				if _, ok := timeFuncs[n.Sel.Name]; ok {
 					c.Replace(r.vs(n.Sel.Name))
-				} else if n.Sel.Name == "Timer" {
-					c.Replace(r.vs("Timer"))
-				} else if n.Sel.Name == "Ticker" || n.Sel.Name == "NewTicker" {
-					die("time.%s at %s", n.Sel.Name, r.pos(n))
+				} else if n.Sel.Name == "Timer" || n.Sel.Name == "Ticker" || n.Sel.Name == "NewTicker" {
+					c.Replace(r.vs(n.Sel.Name))
 				}
 			}
 		case *ast.UnaryExpr:
@@ -198,6 +203,10 @@ func (r *rewriter) rewriteFile() {
 				if call, ok := n.Values[0].(*ast.CallExpr); ok && r.genRecv[call] {
 					call.Fun.(*ast.SelectorExpr).Sel = ast.NewIdent("Recv2")
 				}
+			}
+		case *ast.RangeStmt:
+			if r.chanRange[n] {
+				c.Replace(r.rewriteChanRange(n))
 			}
 		case *ast.GoStmt:
 			c.Replace(r.rewriteGo(n))
@@ -291,6 +300,33 @@ func (r *rewriter) rewriteGo(n *ast.GoStmt) ast.Stmt {
 		&ast.ExprStmt{X: &ast.CallExpr{Fun: r.vs("Go"), Args: []ast.Expr{
 			&ast.FuncLit{Type: &ast.FuncType{Params: &ast.FieldList{}}, Body: &ast.BlockStmt{List: []ast.Stmt{&ast.ExprStmt{X: inner}}}}}}},
 	}}
+}
+
+// rewriteChanRange turns `for v := range ch { body }` into
+// `for c := ch; ; { v, ok := c.Recv2(); if !ok { break }; body }` (the channel operand is evaluated once).
+// break/continue inside body keep their meaning because the loop stays a for statement in the same place.
+func (r *rewriter) rewriteChanRange(n *ast.RangeStmt) ast.Stmt {
+	chv, val, ok := r.tmp("c"), r.tmp("v"), r.tmp("ok")
+	recv := &ast.CallExpr{Fun: &ast.SelectorExpr{X: chv, Sel: ast.NewIdent("Recv2")}}
+	body := []ast.Stmt{
+		&ast.AssignStmt{Lhs: []ast.Expr{val, ok}, Tok: token.DEFINE, Rhs: []ast.Expr{recv}},
+		&ast.IfStmt{Cond: &ast.UnaryExpr{Op: token.NOT, X: ok}, Body: &ast.BlockStmt{List: []ast.Stmt{&ast.BranchStmt{Tok: token.BREAK}}}},
+	}
+	if n.Key != nil {
+		if id, isID := n.Key.(*ast.Ident); !isID || id.Name != "_" {
+			body = append(body, &ast.AssignStmt{Lhs: []ast.Expr{n.Key}, Tok: n.Tok, Rhs: []ast.Expr{val}})
+			if n.Tok == token.DEFINE {
+				body = append(body, &ast.AssignStmt{Lhs: []ast.Expr{ast.NewIdent("_")}, Tok: token.ASSIGN, Rhs: []ast.Expr{n.Key}})
+			}
+		} else {
+			body = append(body, &ast.AssignStmt{Lhs: []ast.Expr{ast.NewIdent("_")}, Tok: token.ASSIGN, Rhs: []ast.Expr{val}})
+		}
+	} else {
+		body = append(body, &ast.AssignStmt{Lhs: []ast.Expr{ast.NewIdent("_")}, Tok: token.ASSIGN, Rhs: []ast.Expr{val}})
+	}
+	body = append(body, n.Body.List...)
+	// the channel lives in the for statement's init clause so that a label on the loop stays on a loop
+	return &ast.ForStmt{Init: &ast.AssignStmt{Lhs: []ast.Expr{chv}, Tok: token.DEFINE, Rhs: []ast.Expr{n.X}}, Body: &ast.BlockStmt{List: body}}
 }
 
 func (r *rewriter) rewriteSelect(n *ast.SelectStmt) ast.Stmt {
@@ -519,7 +555,9 @@ func (r *rewriter) instrumentAccesses() {
 		return true
 	})
 	for s := range writesAfter {
-		die("field/map write outside a statement list (if/for init or post) at %s", r.pos(s))
+		// a field/map write in an if/for/switch init or post clause cannot be followed by a notification
+		// statement; it stays un-instrumented for the race monitor (the access itself is unchanged)
+		fmt.Fprintf(os.Stderr, "note: write at %s is not instrumented for the race monitor (init/post clause)\n", r.pos(s))
 	}
 	// reads: wrap own-field selector reads and map reads
 	astutil.Apply(r.file, nil, func(c *astutil.Cursor) bool {
@@ -642,13 +680,10 @@ func main() {
 					fmt.Fprintf(&buf, "\nvar _ = %s.Second\n", name)
 				case "context":
 					fmt.Fprintf(&buf, "\nvar _ = %s.Background\n", name)
-				case vsPath:
-					if name == "sync" {
-						fmt.Fprintf(&buf, "\nvar _ %s.Mutex\n", name)
-					} else if name == "atomic" {
-						fmt.Fprintf(&buf, "\nvar _ = %s.LoadUint32\n", name)
-					}
 				}
+			}
+			for _, k := range r.keepAlive {
+				fmt.Fprintf(&buf, "\n%s\n", k)
 			}
 			dst := filepath.Join(od, filepath.Base(src))
 			if err := os.WriteFile(dst, buf.Bytes(), 0o644); err != nil {
